@@ -58,7 +58,7 @@ pub proof fn lemma_exp_prefix(st: Seq<f64>, a: Seq<f64>, b: Seq<f64>, m: real, k
              ghost_members="    #[verifier::prophetic]\n    open spec fn added(self, other: f64) -> bool { rv(*final(self)) == rv(*self) + rv(other) }",
              members=[dict(path="fn add", obligation="C08.V.recurse_player.add_item", entry="broadcast use fl; broadcast use ideal;\nproof { ax_obeys(); ax_rv_lits(); }")]),
         dict(file="src/solve/vanilla.rs", path="fn recurse_player", ret="out", obligation="C08.V.recurse_player.update", n_loops=1,
-             rules=["R3m", "R3", "R1", "R8", "R9", "R10"],
+             rules=["R17", "R3m", "R3", "R1", "R8", "R9", "R10"],
              sig_subst=[(r"cum_regret: impl IntoIterator<Item = impl Add>,", "cum_regret: &mut [f64],", "TYPE-SUBST cum_regret := &mut [f64]"),
                         (r"fn recurse_player\(", "fn recurse_player<F: Fn(&Node, [f64; 2]) -> f64>(", "R11 named generic for `impl Fn`"),
                         (r"rec: impl Fn\(&Node, \[f64; 2\]\) -> f64,", "rec: F,", "R11 named generic for `impl Fn`")],
